@@ -762,6 +762,11 @@ var c30Fixed = []string{
 	"select a, (select b from u limit 1) from t where c = (d, e)",
 	"select a from (t, u)",
 	"select a from (t)",
+	"select 'back\\\\slash', 'q\\tz', 'nl\\n', 'x\\'y' from t",
+	"select - -a, -(-a), - - -3, !-a, -!a, ~-a from t",
+	"select a from t where not not a and not (not b)",
+	"select a from t as u, (select 1) v, f(a => 1, b => table(u), c => descriptor(u.a)) w",
+	"select a from t where a in ((select 1)) and (b) in (1)",
 }
 
 func genC30(g *Gen, tier string, w *bufio.Writer) {
